@@ -101,8 +101,8 @@ R('addr_getSlaveAddress', 'h_getSlaveAddress', 'getSlaveAddress', ['isMaster', '
 R('addr_getMasterAddress', 'h_getMasterAddress', 'getMasterAddress', ['isMaster'], cost=1)
 R('addr_getMasterNumber', 'h_getMasterNumber', 'getMasterNumber', ['getMasterPartIndex'], cost=1)
 R('addr_lemmas', 'h_addr_lemmas', None, unwind=257, cost=3)
-R('parseInt', 'h_parseInt', 'parseInt', defines=['VSTR_CAP=6', 'VLIBC_MAXLEN=6'], unwind=8, props=('C11', 'C07', 'C20'), cost=10)
-R('parseSignedInt', 'h_parseSignedInt', 'parseSignedInt', defines=['VSTR_CAP=6', 'VLIBC_MAXLEN=6'], unwind=8, props=('C07', 'C20'), cost=10)
+R('parseInt', 'h_parseInt', 'parseInt', defines=['VSTR_CAP=6', 'VLIBC_MAXLEN=6'], unwind=8, props=('C11', 'C07', 'C12', 'C20'), cost=10)
+R('parseSignedInt', 'h_parseSignedInt', 'parseSignedInt', defines=['VSTR_CAP=6', 'VLIBC_MAXLEN=6'], unwind=8, props=('C07', 'C12', 'C20'), cost=10)
 R('parseHexEscaped', 'h_parseHexEscaped', 'SymbolString_parseHexEscaped', ['parseInt'], loops=True,
   defines=['VSTR_CAP=64', 'VLIBC_MAXLEN=4'], cost=30)
 R('parseHex', 'h_parseHex', 'SymbolString_parseHex', ['parseInt'], loops=True,
